@@ -397,7 +397,7 @@ def _fold_warp(f):
         if not (x.fn.startswith(pre) and x.fn.endswith(suf)):
             return None
         masks.append(x.fn[len(pre):-len(suf)])
-    want_src = lambda mk: f"SRC[{tuple(Sym(f'{V!r}[{mk}, {j}]') for j in range(2))!r}]"
+    want_src = lambda mk: "SRC[" + ", ".join(repr(Sym(f"{V!r}[{mk}, {j}]")) for j in range(2)) + "]"
     if len(set(masks)) != 1:
         bad.append("destination axes are selected with different masks")
     elif val.fn == want_src(masks[0]):
